@@ -834,5 +834,298 @@ theorem parseMPCLC_guard_no_panic (cfg : RdCfg) (fx : Fix) (hfx : fx.guardGates 
     | exact readN_no_panic _ _ _ he | exact (parseIOArg_no_panic cfg fx _).2 _ _ he
     | exact seenInit_no_panic _ _ he | exact gateLoop_guard_no_panic cfg fx _ hfx _ _ _ _ he)
 
+/-! ## The recursion bounds are never the reason for stopping -/
+
+theorem readN_err (cfg : RdCfg) (n : Nat) (rd : Rd) (e : Err) (h : readN cfg n rd = .error e) :
+    e = .error := by
+  unfold readN at h; cases hr : rd.readFull cfg n <;> simp_all
+
+theorem readU32_err (cfg : RdCfg) (rd : Rd) (e : Err) (h : readU32 cfg rd = .error e) :
+    e = .error := by
+  unfold readU32 at h
+  split at h
+  · rename_i e' he
+    simp only [Except.error.injEq] at h
+    subst h
+    exact readN_err _ _ _ _ he
+  · simp at h
+
+theorem declare_err (n : Nat) (e : Err) (h : declare n = .error e) : e = .oversize := by
+  unfold declare at h; by_cases hc : cap < n <;> simp_all
+
+theorem parseString_no_fuel (cfg : RdCfg) (fx : Fix) (rd : Rd) :
+    parseString cfg fx rd ≠ .error .fuel := by
+  intro h
+  unfold parseString at h
+  split at h
+  · rename_i e he
+    simp only [Except.error.injEq] at h
+    subst h
+    cases readU32_err _ _ _ he
+  · split at h
+    · rename_i e he
+      simp only [Except.error.injEq] at h
+      subst h
+      cases declare_err _ _ he
+    · repeat' split at h
+      all_goals simp at h
+
+theorem readN_len (cfg : RdCfg) (n : Nat) (rd : Rd) (b : Bytes) (rd' : Rd)
+    (h : readN cfg n rd = .ok (b, rd')) :
+    b = rd.all.take n ∧ n ≤ rd.all.length ∧ rd'.all = rd.all.drop n := by
+  unfold readN at h
+  cases hr : rd.readFull cfg n with
+  | none => simp [hr] at h
+  | some x =>
+    obtain ⟨d, r2⟩ := x
+    simp only [hr, Except.ok.injEq, Prod.mk.injEq] at h
+    obtain ⟨h1, h2⟩ := h
+    subst h1; subst h2
+    exact readFull_some cfg n rd _ _ hr
+
+theorem readU32_len (cfg : RdCfg) (rd : Rd) (v : Nat) (rd' : Rd) (h : readU32 cfg rd = .ok (v, rd')) :
+    rd'.all.length + 4 = rd.all.length := by
+  unfold readU32 at h
+  split at h
+  · simp at h
+  · rename_i b r2 hr
+    simp only [Except.ok.injEq, Prod.mk.injEq] at h
+    obtain ⟨_, h2⟩ := h
+    subst h2
+    obtain ⟨_, a2, a3⟩ := readN_len _ _ _ _ _ hr
+    rw [a3, List.length_drop]; omega
+
+theorem parseString_len (cfg : RdCfg) (fx : Fix) (rd : Rd) (s : Bytes) (rd' : Rd)
+    (h : parseString cfg fx rd = .ok (s, rd')) : rd'.all.length + 4 ≤ rd.all.length := by
+  unfold parseString at h
+  split at h
+  · simp at h
+  · rename_i n rd1 h1
+    have l1 := readU32_len _ _ _ _ h1
+    split at h
+    · simp at h
+    · split at h
+      · simp only [Except.ok.injEq, Prod.mk.injEq] at h
+        obtain ⟨_, h2⟩ := h
+        subst h2; omega
+      · split at h
+        · split at h
+          · simp at h
+          · rename_i d rd2 hr
+            simp only [Except.ok.injEq, Prod.mk.injEq] at h
+            obtain ⟨_, h2⟩ := h
+            subst h2
+            obtain ⟨_, _, a3⟩ := readFull_some _ _ _ _ _ hr
+            rw [a3, List.length_drop]; omega
+        · split at h
+          · simp at h
+          · rename_i d rd2 hr
+            simp only [Except.ok.injEq, Prod.mk.injEq] at h
+            obtain ⟨_, h2⟩ := h
+            subst h2
+            have hn : 0 < n := by omega
+            obtain ⟨_, _, a3⟩ := read_some _ _ _ _ _ hn hr
+            have : rd1.all.length = d.length + rd2.all.length := by rw [← a3]; simp
+            omega
+
+/-- Every `parseIOArg` consumes at least the four 32-bit fields. -/
+theorem parseIOArg_len (cfg : RdCfg) (fx : Fix) : ∀ (f : Nat),
+    (∀ rd a rd', parseIOArg cfg fx f rd = .ok (a, rd') → rd'.all.length + 16 ≤ rd.all.length) ∧
+    (∀ n rd as rd', parseIOArgs cfg fx f n rd = .ok (as, rd') → rd'.all.length ≤ rd.all.length) := by
+  intro f
+  induction f with
+  | zero =>
+    constructor
+    · intro rd a rd' h; simp [parseIOArg] at h
+    · intro n rd as rd' h
+      cases n with
+      | zero => simp only [parseIOArgs, Except.ok.injEq, Prod.mk.injEq] at h; rw [h.2]; omega
+      | succ n => simp [parseIOArgs] at h
+  | succ f ih =>
+    obtain ⟨ih1, ih2⟩ := ih
+    constructor
+    · intro rd a rd' h
+      simp only [parseIOArg] at h
+      repeat' split at h
+      all_goals (try (simp at h; done))
+      simp only [Except.ok.injEq, Prod.mk.injEq] at h
+      obtain ⟨_, h2⟩ := h
+      subst h2
+      rename_i _ _ e1 _ _ _ e2 _ _ _ e3 _ _ _ _ _ _ _ _ e4 _ _ _ _ _ e5 _
+      have l1 := parseString_len _ _ _ _ _ e1
+      have l2 := parseString_len _ _ _ _ _ e2
+      have l3 := readU32_len _ _ _ _ e3
+      have l4 := readU32_len _ _ _ _ e4
+      have l5 := ih2 _ _ _ _ e5
+      omega
+    · intro n rd as rd' h
+      cases n with
+      | zero => simp only [parseIOArgs, Except.ok.injEq, Prod.mk.injEq] at h; rw [h.2]; omega
+      | succ n =>
+        simp only [parseIOArgs] at h
+        repeat' split at h
+        all_goals (try (simp at h; done))
+        simp only [Except.ok.injEq, Prod.mk.injEq] at h
+        obtain ⟨_, h2⟩ := h
+        subst h2
+        rename_i _ _ e1 _ _ _ e2 _
+        have l1 := ih1 _ _ _ e1
+        have l2 := ih2 _ _ _ _ e2
+        omega
+
+theorem parseIOArg_fuel (cfg : RdCfg) (fx : Fix) : ∀ (f : Nat),
+    (∀ rd, rd.all.length < 8 * f → parseIOArg cfg fx f rd ≠ .error .fuel) ∧
+    (∀ n rd, rd.all.length + 8 < 8 * f → parseIOArgs cfg fx f n rd ≠ .error .fuel) := by
+  intro f
+  induction f with
+  | zero =>
+    constructor
+    · intro rd h; omega
+    · intro n rd h; omega
+  | succ f ih =>
+    obtain ⟨ih1, ih2⟩ := ih
+    constructor
+    · intro rd hlen h
+      simp only [parseIOArg] at h
+      split at h
+      · rename_i e he
+        simp only [Except.error.injEq] at h; subst h
+        exact parseString_no_fuel _ _ _ he
+      · rename_i _ _ e1
+        split at h
+        · rename_i e he
+          simp only [Except.error.injEq] at h; subst h
+          exact parseString_no_fuel _ _ _ he
+        · rename_i _ _ e2
+          split at h
+          · rename_i e he
+            simp only [Except.error.injEq] at h; subst h
+            cases readU32_err _ _ _ he
+          · rename_i _ _ e3
+            split at h
+            · rename_i e he
+              simp only [Except.error.injEq] at h; subst h
+              cases declare_err _ _ he
+            · split at h
+              · simp at h
+              · split at h
+                · rename_i e he
+                  simp only [Except.error.injEq] at h; subst h
+                  cases readU32_err _ _ _ he
+                · rename_i _ _ e4
+                  split at h
+                  · rename_i e he
+                    simp only [Except.error.injEq] at h; subst h
+                    cases declare_err _ _ he
+                  · split at h
+                    · rename_i e he
+                      simp only [Except.error.injEq] at h; subst h
+                      have l1 := parseString_len _ _ _ _ _ e1
+                      have l2 := parseString_len _ _ _ _ _ e2
+                      have l3 := readU32_len _ _ _ _ e3
+                      have l4 := readU32_len _ _ _ _ e4
+                      exact ih2 _ _ (by omega) he
+                    · simp at h
+    · intro n rd hlen h
+      cases n with
+      | zero => simp [parseIOArgs] at h
+      | succ n =>
+        simp only [parseIOArgs] at h
+        split at h
+        · rename_i e he
+          simp only [Except.error.injEq] at h; subst h
+          exact ih1 _ (by omega) he
+        · rename_i _ _ e1
+          split at h
+          · rename_i e he
+            simp only [Except.error.injEq] at h; subst h
+            have l1 := (parseIOArg_len cfg fx f).1 _ _ _ e1
+            exact ih2 _ _ (by omega) he
+          · simp at h
+
+theorem needSeen_err (s : Store Bool) (w : Nat) (e : Err) (h : needSeen s w = .error e) : e = .error := by
+  unfold needSeen seenGet at h
+  by_cases hw : w < s.size
+  · simp only [hw, if_true] at h
+    cases hg : s.get w <;> simp_all
+  · simp_all
+
+theorem seenSet_err (s : Store Bool) (w : Nat) (e : Err) (h : seenSet s w = .error e) : e = .error := by
+  unfold seenSet at h
+  by_cases hw : w < s.size <;> simp_all
+
+theorem seenInit_err (nw : Nat) (iw : Int) (e : Err) (h : seenInit nw iw = .error e) : e = .error := by
+  unfold seenInit at h
+  by_cases hw : (nw : Int) < iw <;> simp_all
+
+theorem gateLoop_fuel (cfg : RdCfg) (fx : Fix) (ng : Nat) :
+    ∀ (f gate : Nat) (seen : Store Bool) (rd : Rd), rd.all.length < f →
+      gateLoop cfg fx ng f gate seen rd ≠ .error .fuel := by
+  intro f
+  induction f with
+  | zero => intro gate seen rd h; omega
+  | succ f ih =>
+    intro gate seen rd hlen h
+    simp only [gateLoop] at h
+    split at h
+    · simp at h
+    · rename_i opb rd1 hr
+      obtain ⟨r1, r2, r3⟩ := read_some _ _ _ _ _ (by omega) hr
+      have hl1 : rd.all.length = opb.length + rd1.all.length := by rw [← r3]; simp
+      have : 0 < opb.length := List.length_pos_iff.2 r1
+      repeat' split at h
+      all_goals (try (simp at h; done))
+      all_goals (rename_i e he; simp only [Except.error.injEq] at h; subst h)
+      all_goals first
+        | (cases readN_err _ _ _ _ he; done)
+        | (cases needSeen_err _ _ _ he; done)
+        | (cases seenSet_err _ _ _ he; done)
+        | skip
+      all_goals
+        (have hb := readN_len _ _ _ _ _ ‹readN cfg _ rd1 = Except.ok _›
+         obtain ⟨_, _, hb3⟩ := hb
+         refine ih _ _ _ ?_ he
+         rw [hb3, List.length_drop]; omega)
+
+/-- The recursion bounds of the model of `ParseMPCLC` are never reached. -/
+theorem parseMPCLC_no_fuel (cfg : RdCfg) (fx : Fix) (bytes : Bytes) :
+    parseMPCLC cfg fx bytes ≠ .error .fuel := by
+  intro h
+  simp only [parseMPCLC] at h
+  split at h
+  · rename_i e he
+    simp only [Except.error.injEq] at h; subst h
+    cases readN_err _ _ _ _ he
+  · rename_i hd rd0 e0
+    obtain ⟨_, a2, a3⟩ := readN_len _ _ _ _ _ e0
+    have l0 : rd0.all.length + 20 = bytes.length := by
+      rw [a3, List.length_drop]
+      simp only [Rd.all, Rd.init, List.nil_append] at a2 ⊢
+      omega
+    split at h
+    · split at h
+      · rename_i e he
+        simp only [Except.error.injEq] at h; subst h
+        exact (parseIOArg_fuel cfg fx _).2 _ _ (by omega) he
+      · rename_i _ rd1 e1
+        have l1 := (parseIOArg_len cfg fx _).2 _ _ _ _ e1
+        split at h
+        · rename_i e he
+          simp only [Except.error.injEq] at h; subst h
+          exact (parseIOArg_fuel cfg fx _).2 _ _ (by omega) he
+        · rename_i _ rd2 e2
+          have l2 := (parseIOArg_len cfg fx _).2 _ _ _ _ e2
+          split at h
+          · rename_i e he
+            simp only [Except.error.injEq] at h; subst h
+            cases seenInit_err _ _ _ he
+          · split at h
+            · rename_i e he
+              simp only [Except.error.injEq] at h; subst h
+              exact gateLoop_fuel cfg fx _ _ _ _ _ (by omega) he
+            · repeat' split at h
+              all_goals simp at h
+    · simp at h
+
 end Fmt
 end Mpc
